@@ -93,6 +93,9 @@ func (g *gen) scalar(k Kind) *T {
 	if k == Enum {
 		t.S = g.c.Enums[g.r.Intn(len(g.c.Enums))]
 	}
+	if k == I64 && g.r.Chance(1, 6) {
+		t.GoName = g.c.Enums[g.r.Intn(len(g.c.Enums))] // plain i64 carried by the Go type that elsewhere is an enum
+	}
 	return t
 }
 
@@ -201,6 +204,9 @@ func Generate(seed uint64) *Corpus {
 		add(s)
 	}
 	for _, s := range g.requiredEdges() {
+		add(s)
+	}
+	for _, s := range g.aliasAndFixed() {
 		add(s)
 	}
 	// leaves
@@ -368,6 +374,50 @@ func (g *gen) requiredEdges() []*StructDef {
 			{ID: uint16(60 + i), Name: fmt.Sprintf("F%d", 60+i), T: &T{K: I64}, Req: Required},
 		}
 		out = append(out, s)
+	}
+	return out
+}
+
+// aliasAndFixed: (a) structs whose non-required fields have ids that are congruent to a required id modulo 64
+// (the same bit of another word of a presence set) or modulo other powers of two, and pairs of required ids that alias
+// each other; (b) structs made only of non-optional fixed-width scalars, with and without the unknown-fields
+// holder, reached by pointer, by value, in lists, sets and map values.
+func (g *gen) aliasAndFixed() []*StructDef {
+	var out []*StructDef
+	mk := func(name string, unknown bool, fs ...*Field) *StructDef {
+		s := &StructDef{Name: name, Cluster: -1, Unknown: unknown, Fields: fs}
+		out = append(out, s)
+		return s
+	}
+	f := func(id uint16, req Req, k Kind) *Field {
+		x := &Field{ID: id, Name: fmt.Sprintf("F%d", id), Req: req, T: g.scalar(k)}
+		if k == I64 {
+			x.T.GoName = ""
+		}
+		if req == Optional && k != String && k != Binary {
+			x.OptPtr = id%2 == 1
+		}
+		return x
+	}
+	mk("Alias0", false, f(5, Required, I32), f(69, Optional, I32), f(133, Default, String), f(4101, Optional, I64), f(65477, Default, I16))
+	mk("Alias1", true, f(0, Required, String), f(63, Required, I64), f(64, Default, I32), f(127, Optional, I64), f(128, Default, Bool), f(191, Optional, Double))
+	mk("Alias2", false, f(1, Required, I64), f(65, Default, I64), f(129, Optional, String), f(257, Default, I32), f(1025, Optional, I16), f(32769, Default, I8))
+	mk("Alias3", true, f(5, Required, I32), f(69, Required, String), f(133, Required, I64), f(6, Optional, I32))
+	mk("Alias4", false, f(62, Required, Bool), f(126, Default, I32), f(190, Optional, I32), f(254, Default, String), f(318, Optional, I64))
+	mk("Alias5", false, f(64, Required, I32), f(0, Default, I32), f(128, Optional, I32), f(4160, Default, I64))
+	mk("FixedU", true, f(1, Default, I32), f(2, Required, I64), f(3, Default, Bool), f(4, Default, Double))
+	mk("FixedN", false, f(1, Default, I16), f(2, Required, I8), f(7, Default, I64))
+	mk("FixedOneU", true, f(3, Default, I64))
+	for i, in := range []string{"FixedU", "FixedN", "FixedOneU", "Alias1", "Alias3"} {
+		mk(fmt.Sprintf("Hold%s", in), i%2 == 0,
+			&Field{ID: 1, Name: "F1", T: &T{K: Struct, S: in, Ptr: true}},
+			&Field{ID: 2, Name: "F2", T: &T{K: List, Elem: &T{K: Struct, S: in, Ptr: true}}},
+			&Field{ID: 3, Name: "F3", T: &T{K: List, Elem: &T{K: Struct, S: in}}, Req: Optional},
+			&Field{ID: 4, Name: "F4", T: &T{K: Map, Key: &T{K: I32}, Elem: &T{K: Struct, S: in, Ptr: true}}},
+			&Field{ID: 5, Name: "F5", T: &T{K: Map, Key: &T{K: String}, Elem: &T{K: Struct, S: in}}, Req: Optional},
+			&Field{ID: 6, Name: "F6", T: &T{K: Struct, S: in}},
+			&Field{ID: 7, Name: "F7", T: &T{K: Set, Elem: &T{K: Struct, S: in, Ptr: true}}, Req: Required},
+		)
 	}
 	return out
 }
